@@ -31,6 +31,8 @@ FAMILIES = {
     "code_q": (gen_cfg("SEQ", caps="{100000}", kinds='{"resp"}', maxlen=0, cfgs="{0, 2}", L='"CODE"'), 1, 8),
     "lines_q": (gen_cfg("SEQ", caps="{0, 1, 2}", kinds='{"req", "resp", "hdrs"}', phases='{"HLINE"}', L='"LINES"'), 8, 2),
     "methods": (gen_cfg("SEQ", caps="{1, 100000}", kinds='{"req"}', maxlen=0, L='"METHODS"'), 2, 4),
+    "walk_q": (gen_cfg("WALK", caps="{1, 100000}", L="200"), 1, 8, "num=1500 -depth 220 -seed 11"),
+    "walk_t": (gen_cfg("WALK", caps="{0, 1, 2, 100000}", L="400"), 1, 12, "num=40000 -depth 420 -seed 12"),
     "reasons": (gen_cfg("SEQ", caps="{100000}", kinds='{"resp"}', maxlen=0, cfgs="{0, 2}", L='"REASONS"'), 2, 4),
     "versions": (gen_cfg("SEQ", caps="{100000}", kinds='{"req", "resp"}', maxlen=0, cfgs="{0, 1, 2}", L='"VERSIONS"'), 2, 4),
     # ---------------- thorough tier
@@ -124,7 +126,8 @@ def family_file(name, timeout=3000):
     d = cache_dir()
     p = os.path.join(d, name + ".vec")
     meta = os.path.join(d, name + ".meta.json")
-    consts, shards, workers = FAMILIES[name]
+    consts, shards, workers = FAMILIES[name][:3]
+    simulate = FAMILIES[name][3] if len(FAMILIES[name]) > 3 else None
     if os.path.exists(p) and os.path.exists(meta):
         m = json.load(open(meta))
         if m.get("constants") == consts:
@@ -141,8 +144,8 @@ def family_file(name, timeout=3000):
         out = open(os.path.join(wd, "s%d.out" % r), "w")
         md = os.path.join(wd, "md%d" % r)
         e = dict(os.environ, SEEDS=seeds, JAVA_TOOL_OPTIONS="-Xss16m -XX:ParallelGCThreads=2 -Xmx6g")
-        cmd = ["timeout", str(timeout), "tlc", "-workers", str(workers), "-metadir", md, "-cleanup",
-               "-noGenerateSpecTE", "-config", cfg, os.path.join(SPEC, "Gen.tla")]
+        cmd = ["timeout", str(timeout), "tlc", "-workers", str(workers)] + (["-simulate"] + simulate.split() if simulate else []) + [
+               "-metadir", md, "-cleanup", "-noGenerateSpecTE", "-config", cfg, os.path.join(SPEC, "Gen.tla")]
         procs.append((subprocess.Popen(cmd, stdout=out, stderr=subprocess.STDOUT, env=e, cwd=wd), out, r))
     states = 0
     for pr, out, r in procs:
@@ -158,7 +161,7 @@ def family_file(name, timeout=3000):
                     if line.startswith('"['):
                         g.write(line.rstrip()[1:-1] + "\n")
                         n += 1
-                    elif "Model checking completed. No error has been found." in line:
+                    elif "Model checking completed. No error has been found." in line or (simulate and line.startswith("Finished in")):
                         ok = True
                     else:
                         m = TLC_STATS.search(line)
